@@ -65,8 +65,11 @@ func (c06) Generate(r *simkit.Rand, tier string) any {
 	for i := 0; i < nc; i++ {
 		var ops []C06Op
 		for j, m := 0, r.Range(1, maxOps); j < m; j++ {
-			op := C06Op{Op: simkit.Pick(r, "spawnreg", "spawnreg", "register", "register", "unregister", "resolve", "resolve", "terminate", "relate"),
+			op := C06Op{Op: simkit.Pick(r, "spawnreg", "spawnreg", "register", "register", "unregister", "resolve", "resolve", "terminate", "relate", "regevent", "regevent", "unregevent"),
 				Name: r.Intn(c.Names), Proc: r.Intn(c.Procs)}
+			if op.Op == "regevent" || op.Op == "unregevent" {
+				op.Name = r.Intn(c06Events)
+			}
 			if op.Op == "register" {
 				// RegisterName for one process is only ever issued by one client: two concurrent
 				// registrations of the same process under different names can both be refused
@@ -120,10 +123,13 @@ func (c06) Shrink(cc any) []any {
 // ---- sequential model for porcupine ----
 
 type c06State struct {
-	owner [c06MaxNames]int8 // -1 free
-	named [c06MaxProcs]int8 // -1 none
-	dead  [c06MaxProcs]bool
+	owner   [c06MaxNames]int8 // -1 free
+	named   [c06MaxProcs]int8 // -1 none
+	dead    [c06MaxProcs]bool
+	evOwner [c06Events]int8 // shared event names: -1 free
 }
+
+const c06Events = 2
 
 type c06In struct {
 	Op   string
@@ -147,6 +153,9 @@ func c06Init() c06State {
 	}
 	for i := range s.named {
 		s.named[i] = -1
+	}
+	for i := range s.evOwner {
+		s.evOwner[i] = -1
 	}
 	return s
 }
@@ -202,9 +211,38 @@ func c06Step(st, in, out interface{}) (bool, interface{}) {
 			return s.owner[i.Name] == -1, s
 		}
 		return s.owner[i.Name] == int8(o.Owner) && !s.dead[o.Owner], s
+	case "regevent":
+		if o.Skip {
+			return true, s
+		}
+		if o.OK {
+			if s.evOwner[i.Name] != -1 || s.dead[i.Proc] {
+				return false, s
+			}
+			s.evOwner[i.Name] = int8(i.Proc)
+			return true, s
+		}
+		return s.evOwner[i.Name] != -1, s
+	case "unregevent":
+		if o.Skip {
+			return true, s
+		}
+		if o.OK {
+			if s.evOwner[i.Name] != int8(i.Proc) {
+				return false, s
+			}
+			s.evOwner[i.Name] = -1
+			return true, s
+		}
+		return s.evOwner[i.Name] != int8(i.Proc), s
 	case "terminate":
 		if s.dead[i.Proc] {
 			return true, s
+		}
+		for k := range s.evOwner {
+			if s.evOwner[k] == int8(i.Proc) {
+				s.evOwner[k] = -1
+			}
 		}
 		s.dead[i.Proc] = true
 		if n := s.named[i.Proc]; n != -1 {
@@ -217,6 +255,15 @@ func c06Step(st, in, out interface{}) (bool, interface{}) {
 }
 
 type c06Ping int
+
+// c06EvOp asks a process to claim (or give up) one of the shared event names.
+type c06EvOp struct {
+	K     int
+	Unreg bool
+	Reply chan error
+}
+
+var c06EventNames = []gen.Atom{"se0", "se1"}
 
 // recording wrapper around the real target manager
 type c06TM struct {
@@ -291,6 +338,14 @@ func (c06) Run(e *simkit.Env, cc any) {
 						p.metaH = append(p.metaH, mh)
 					}
 				}
+			case c06EvOp:
+				var err error
+				if v.Unreg {
+					err = pp.UnregisterEvent(c06EventNames[v.K])
+				} else {
+					_, err = pp.RegisterEvent(c06EventNames[v.K], gen.EventOptions{})
+				}
+				v.Reply <- err
 			case c06Ping:
 				mu.Lock()
 				pinged[int(v)] = append(pinged[int(v)], p.id)
@@ -391,6 +446,30 @@ func (c06) Run(e *simkit.Env, cc any) {
 						out.Skip = true
 						out.Err = err.Error()
 					}
+				case "regevent", "unregevent":
+					p := procs[op.Proc]
+					reply := make(chan error, 1)
+					if err := n.Send(p.pid, c06EvOp{K: op.Name, Unreg: op.Op == "unregevent", Reply: reply}); err != nil {
+						out.Skip = true // the process is gone
+						break
+					}
+					tm := time.NewTimer(30 * time.Second)
+					select {
+					case err := <-reply:
+						out.OK = err == nil
+						if err != nil {
+							out.Err = err.Error()
+							// only the refusals that speak about the event name carry information
+							// (a process on its way out answers 'not allowed')
+							if !errors.Is(err, gen.ErrTaken) && !errors.Is(err, gen.ErrEventUnknown) && !errors.Is(err, gen.ErrEventOwner) {
+								out.Skip = true
+							}
+						}
+					case <-tm.C:
+						out.Skip = true // terminated before it got to the request
+					}
+					tm.Stop()
+					e.Gate("c06:evop-done")
 				case "terminate":
 					p := procs[op.Proc]
 					if _, loaded := pendingTerm.LoadOrStore(op.Proc, call); loaded {
